@@ -301,6 +301,65 @@ def oracle_dw(case) -> Result:
 
 
 # ----------------------------------------------------------------------------------------
+# descriptions of real, un-converted layers (plain numbers): what the library itself hands to the
+# cost functions for the layers outside the search when full_cost is set
+# ----------------------------------------------------------------------------------------
+PLAIN_SPECS = SIZE_SPECS + ['gap8_latency']      # the specs of the methods that keep fixed layers
+
+
+def enum_plain(tier):
+    chans = [1, 2, 3, 8, 31, 32, 33] if tier == 'quick' else [1, 2, 3, 4, 7, 8, 9, 16, 31, 32, 33, 65]
+    for name in PLAIN_SPECS:
+        for (n2, tname, dw, _fn) in entries():
+            if n2 != name:
+                continue
+            for cin in chans:
+                for cout in ([cin] if dw else chans):
+                    if dw and cin < 2:
+                        continue
+                    for k in ([None] if tname == 'Linear' else [1, 3, 5]):
+                        for bias in (True, False):
+                            yield {'mode': 'plain', 'spec': name, 'type': tname, 'dw': dw,
+                                   'cin': cin, 'cout': cout, 'k': k, 'bias': bias, 'out': [7, 5]}
+
+
+def oracle_plain(case) -> Result:
+    """vars() of a real nn layer + its output shape (exactly the dictionary PIT / SuperNet build for
+    a layer outside the search) must be priced like the same layer described with tensors."""
+    import torch
+    import torch.nn as nn
+    res = Result()
+    name, tname, dw = case['spec'], case['type'], case['dw']
+    cin, cout, k, bias = case['cin'], case['cout'], case['k'], case['bias']
+    fn = entry(name, tname, dw)
+    if tname == 'Linear':
+        layer = nn.Linear(cin, cout, bias=bias)
+        oshape = torch.Size((1, cout))
+    elif tname == 'Conv1d':
+        layer = nn.Conv1d(cin, cout, k, groups=(cin if dw else 1), bias=bias)
+        oshape = torch.Size((1, cout, case['out'][0]))
+    else:
+        layer = nn.Conv2d(cin, cout, k, groups=(cin if dw else 1), bias=bias)
+        oshape = torch.Size((1, cout) + tuple(case['out']))
+    v = dict(vars(layer))
+    v['output_shape'] = oshape
+    ref = call(fn, make_spec(name, tname, dw, cin, cout, k, case['out'], bias, 8, 8))
+    try:
+        got = float(fn(v))
+    except Exception as e:  # noqa
+        res.bad('real-layer-description-not-priced', spec=name, type=tname, dw=dw, cin=cin, cout=cout,
+                k=k, bias=bias, error=f"{type(e).__name__}: {str(e)[:120]}")
+        return res
+    if not math.isfinite(got) or got < 0 or abs(got - ref) > 1e-6 * max(1.0, abs(ref)):
+        res.bad('real-layer-description-priced-differently', spec=name, type=tname, dw=dw, cin=cin,
+                cout=cout, k=k, bias=bias, plain_numbers=got, tensors=ref)
+    res.nontrivial = True
+    res.ev('spec:' + name, 'plain-number-description')
+    res.obs = {'plain': got, 'tensors': ref}
+    return res
+
+
+# ----------------------------------------------------------------------------------------
 # rounding helpers
 # ----------------------------------------------------------------------------------------
 def helpers():
@@ -424,6 +483,9 @@ CHECK = Check(
                              'and quarter fractions'),
         Part('rejects', oracle_reject, enumerate=enum_rejects,
              exhaustive_note='unsupported precisions / kernels / kinds of mpic, ne16, diana'),
+        Part('real-layer-descriptions', oracle_plain, enumerate=enum_plain,
+             exhaustive_note='params / ops (+no_bias) / gap8 on vars() of real nn.Conv1d/Conv2d/'
+                             'Linear layers (plain-number channel counts) x channels x kernels x bias'),
         Part('dw-equals-generic', oracle_dw, enumerate=enum_dw_equiv,
              exhaustive_note='size/ops/bit specs x Conv1d/2d x channels x kernels x bias'),
         Part('grids', oracle_grid, enumerate=enum_grids, enum_parallel=True,
@@ -440,7 +502,9 @@ CHECK = Check(
           "model permits, output sizes 1..33, bits from the model's domain, bias on/off) swept "
           "along one axis (in/out channels, kernel, output rows/cols, weight bits, activation bits) "
           "with the pattern held fixed; checks finite, >= 0, > 0 for non-empty layers at non-zero "
-          "bits, non-decreasing, finite gradients. Non-trivial = a sweep/grid with >= 2 points; "
+          "bits, non-decreasing, finite gradients. real-layer-descriptions: vars() of a real "
+          "un-converted nn layer plus its output shape (what PIT / SuperNet show the cost function "
+          "for layers outside the search) is priced like the tensor description. Non-trivial = a sweep/grid with >= 2 points; "
           "distinct by case hash."),
     assumptions=[
         "monotonicity is per registered function: generic sweeps never pass through the 1->1 "
